@@ -113,6 +113,8 @@ type Obs struct {
 	LeafEvents          map[string][]string
 	ProbeDelivered      map[string]bool
 	HistDone            bool
+	CloserStarted       bool
+	CloserStartedAtRead bool // the scripted closer had acted when the observer looked (under virtual time it may be late)
 	HistDoneAtRead      bool // the whole server history had been applied when the observer looked
 }
 
@@ -136,6 +138,7 @@ func (in *Inst) apply(m Mut) {
 }
 
 func (in *Inst) doClose(kind string) {
+	in.O.CloserStarted = true
 	switch {
 	case kind == "close":
 		in.O.ClosesIssued++
@@ -287,6 +290,7 @@ func (in *Inst) Run() {
 	in.O.PendingTimersAtRead = vs.SleepIdleArmed(c.ReadAt)
 	in.O.ObserverRan = true
 	in.O.HistDoneAtRead = in.O.HistDone
+	in.O.CloserStartedAtRead = in.O.CloserStarted
 	in.O.Clock = vs.ClockHere()
 	if l, err := ctrl.Cache().List(); err != nil {
 		in.O.CacheErr = err.Error()
